@@ -1,5 +1,5 @@
 (* C13 - Searching a binary image for the header is exact and total. *)
-Require Import Bytes Outcome Common TagType Header C13Proofs.
+Require Import Bytes Outcome Common TagType Header Sparse C13Proofs SparseProofs.
 
 (* Specification vocabulary:
    search_len buf   = min 8192 (len buf)
@@ -25,3 +25,11 @@ Theorem C13_total : forall p a buf,
   is_panic (find_header p a buf) = false /\ is_fault (find_header p a buf) = false.
 Proof. exact c13_total. Qed.
 Print Assumptions C13_total.
+
+(* buffers no list of bytes can hold (4 GiB and more): on EVERY buffer that starts with `prefix` (covering the search
+   window and the length word of a header found in it), find_header depends on the rest only through its length *)
+Theorem C13_sparse : forall p a prefix rest,
+  8204 <= len prefix \/ rest = nil ->
+  find_header p a (prefix ++ rest) = find_header_sparse a prefix (len prefix + len rest).
+Proof. exact find_header_sparse_ok. Qed.
+Print Assumptions C13_sparse.
